@@ -88,7 +88,7 @@ impl ChainTrackerEntry {
         r.0.tip == de_tip(self.tip@) && r.0.height == self.height && r.0.network == self.network
         && r.0.headers == de_all(self.headers@) && r.1@ == self.listeners@,                                         //[C11.store.tracker-restored-from-its-record]
         r.0.listeners.is_empty_map(),
-//@sub /(?s)let tip: Headers = match deserialize::<Headers>\(&self\.tip\) \{.*?Ok\(t\) => t,\s*\};/ => let tip: Headers = vx_de_tip(&self.tip);
+//@sub /(?s)let tip(?:: Headers)? = match deserialize::<Headers>\(&self\.tip\) \{.*?Ok\(t\) => t,\s*\};/ => let tip: Headers = vx_de_tip(&self.tip);
 //@sub /(?s)self\.headers\.iter\(\)\.map\(\|h\| deserialize\(h\)\.vx_expect\(\)\)\.collect\(\)/ => vx_de_all(&self.headers)
 //@sub /(?s)let listeners: Vec<_> = self\s*\.listeners\s*\.into_iter\(\)\s*\.map\(\|\(outpoint, \(state, slot\)\)\| ChainTrackerListenerEntry\(outpoint, \(state, slot\)\)\)\s*\.collect\(\);/ => let listeners: Vec<VxListenerRecord> = vx_as_listener_entries(self.listeners);
 //@sub /ChainTracker::restore\(/ => VxTrackerT::restore(
